@@ -31,6 +31,7 @@ def project_tunnel_sys(beh, rng, name=""):
     kinds = set()
     faults = 0
     pending_gate = {}
+    stalls = []
 
     def after(c, total):
         if total == 0:
@@ -95,6 +96,9 @@ def project_tunnel_sys(beh, rng, name=""):
                 downc[cur] = downc.get(cur, 0) + 1
         elif act == "SrvDetach":
             att[args[0]] = False
+        elif act == "ReaderStalls":
+            stalls.append(args[1])
+            kinds.add("reader-stall-" + args[1])
         elif act in ("Cut", "Freeze"):
             k = args[0]
             p = peers.get(k)
@@ -141,9 +145,22 @@ def project_tunnel_sys(beh, rng, name=""):
                 kinds.add("proxy-freeze")
                 car[k] = "frozen"
             upin[k] = downin[k] = False
+    read_stalls = []
+    for d in stalls:
+        # a stalled reader only bites in a bulk transfer: several MiB, so that far more than a few hundred
+        # data channel messages are on their way when the reader stops, and again when it resumes
+        if d == "down":
+            down = max(down, rng.choice([6 << 20, 8 << 20]))
+            total = down
+        else:
+            up = max(up, rng.choice([4 << 20, 6 << 20]))
+            total = up
+        read_stalls.append({"dir": d, "at": rng.randint(total // 16, total // 2), "ms": rng.choice([1500, 2500])})
+        read_stalls.append({"dir": d, "at": rng.randint(total // 2, total - 1), "ms": rng.choice([800, 1500])})
+    read_stalls.sort(key=lambda x: x["at"])
     plans = [peers[k] for k in sorted(peers)]
     sc = {"name": name, "seed": rng.getrandbits(40), "up": up, "down": down, "max": rng.choice([1, 1, 2, 3]), "peers": plans,
-          "bound_ms": SYS_BOUND_MS}
+          "bound_ms": SYS_BOUND_MS, "read_stalls": read_stalls}
     return sc, {"faults": faults, "kinds": kinds}
 
 
@@ -235,7 +252,16 @@ def run_system_quick(chk, out):
          "peers": [{"answer": "ok", "ip": "192.0.2.7", "gate": True, "park": True}, {"answer": "ok", "ip": "192.0.2.7"}],
          "origin": {"module": "Tunnel", "steps": [["Pop", ["A", 1]], ["Cut", [1]], ["WriteIdFailsUnmarked", ["A", 1]], ["MarkClosed", [1]], ["Pop", ["A", 2]]]}},
     ]
-    results, summary, o, races = run_sysrig(binary, scs, par=3, timeout=400, tag="sysq")
+    # a stalled reader during a bulk transfer: the application behind the client stops reading for seconds in the
+    # middle of an 8 MiB download (twice), the application behind the server in the middle of a 3 MiB upload; both
+    # resume.  The stream must continue exact and ordered, and every packet read from the carrier at either end
+    # must be one the other end wrote (hooks ex.read / srv.in against srv.out / ex.write).
+    scs.append({"name": "c01-sysq-readerstall", "seed": chk.seed, "up": 3 << 20, "down": 8 << 20, "max": 1, "bound_ms": QUICK_BOUND_MS,
+                "peers": [{"answer": "ok", "ip": "192.0.2.7"}],
+                "read_stalls": [{"dir": "down", "at": 1 << 20, "ms": 2000}, {"dir": "up", "at": 1 << 20, "ms": 1500}, {"dir": "down", "at": 4 << 20, "ms": 1500}],
+                "origin": {"module": "Tunnel", "steps": [["ReaderStalls", ["A", "down"]], ["OnMessage", [1]], ["ReaderResumes", ["A", "down"]], ["ClientRecv", ["A"]],
+                                                         ["ReaderStalls", ["A", "up"]], ["ReaderResumes", ["A", "up"]]]}})
+    results, summary, o, races = run_sysrig(binary, scs, par=4, timeout=400, tag="sysq")
     chk.note("system rig (quick): %d done, %d stalled, %d faults fired, %.0fs" % (summary["done"], summary["stalled"], summary["faults"], summary["wall_ms"] / 1000.0))
     judge_sys(chk, binary, scs, results, bound_ms=QUICK_BOUND_MS)
     fr = results.get("c01-sysq-freeze", {})
@@ -257,7 +283,7 @@ def run_system(chk):
         rng = random.Random("sys/%d/%d" % (chk.seed, bi))
         sc, info = project_tunnel_sys(beh, rng, name="c01-sys-%d" % bi)
         sc["origin"] = {"module": "Tunnel_Gen", "config": "Gen_sys.cfg",
-                        "steps": [[a, b] for a, b in beh if a in ("Pop", "PopSkip", "MarkClosed", "WriteId", "WriteIdFailsMarked", "WriteIdFailsUnmarked", "Cut", "G_Cut", "Freeze", "AnswerLost", "Collect", "StaleClose")]}
+                        "steps": [[a, b] for a, b in beh if a in ("Pop", "PopSkip", "MarkClosed", "WriteId", "WriteIdFailsMarked", "WriteIdFailsUnmarked", "Cut", "G_Cut", "Freeze", "AnswerLost", "Collect", "StaleClose", "ReaderStalls", "ReaderResumes")]}
         scs.append(sc)
         kinds |= info["kinds"]
         nf += info["faults"]
